@@ -24,6 +24,18 @@ pub enum EncKind {
 #[derive(Debug)]
 pub struct ChunkEncoder {
     pub seed: u64,
+    /// records (tid, n) whose encoding fails part-way (fault at the Encode seam)
+    pub fail: Vec<(u16, u16)>,
+}
+
+fn header_id(b: &[u8]) -> Option<(u16, u16)> {
+    if b.first() != Some(&2) {
+        return None;
+    }
+    let end = b.iter().position(|x| *x == 3)?;
+    let h = std::str::from_utf8(&b[1..end]).ok()?;
+    let mut it = h.split(',');
+    Some((it.next()?.parse().ok()?, it.next()?.parse().ok()?))
 }
 
 impl Encode for ChunkEncoder {
@@ -36,8 +48,14 @@ impl Encode for ChunkEncoder {
         let mut cuts: Vec<usize> = (0..pieces - 1).map(|_| rng.below(b.len() as u64 + 1) as usize).collect();
         cuts.sort();
         cuts.push(b.len());
+        let failing = !self.fail.is_empty() && header_id(b).map(|id| self.fail.contains(&id)).unwrap_or(false);
+        let fail_at = if failing { rng.below(cuts.len() as u64) as usize } else { usize::MAX };
         let mut p = 0;
         for (i, c) in cuts.iter().enumerate() {
+            if i == fail_at {
+                kernel::note("encode.fail", "");
+                anyhow::bail!("injected encoder failure");
+            }
             if i % 3 == 2 {
                 // exercise `write` with manual continuation too
                 let mut q = p;
@@ -64,7 +82,7 @@ fn fold(b: &[u8]) -> u64 {
 
 pub fn make_encoder(k: &EncKind) -> Box<dyn Encode> {
     match k {
-        EncKind::Chunk { seed } => Box::new(ChunkEncoder { seed: *seed }),
+        EncKind::Chunk { seed } => Box::new(ChunkEncoder { seed: *seed, fail: vec![] }),
         EncKind::Pattern => Box::new(log4rs::encode::pattern::PatternEncoder::new("{m}")),
     }
 }
